@@ -28,6 +28,10 @@ type SeqCfg struct {
 	Log        bool
 	// AfterOpen runs in the client thread after the transport is up.
 	AfterOpen func(w *World, c *TunnelClient)
+	// Prelude runs in the client thread before the observed tunnel is opened (earlier tunnels,
+	// possibly with the same connection id): the observed tunnel starts from a non-initial
+	// gateway state. Dials and backend bytes of the prelude are not attributed to the steps.
+	Prelude func(w *World, h http.Handler, gw *protocol.Gateway)
 }
 
 // Seg is one transport segment sent by the client, or a control action.
@@ -73,6 +77,7 @@ var curProc *ProcRun
 // quiescence after each, under the default schedule.
 func RunSeq(cfg SeqCfg, segs []Seg) *SeqResult {
 	res := &SeqResult{}
+	curScenario = "sequential/" + cfg.Kind
 	max := cfg.MaxSteps
 	if max == 0 {
 		max = 20000
@@ -98,6 +103,15 @@ func RunSeq(cfg SeqCfg, segs []Seg) *SeqResult {
 			}
 		}
 		id := NewIdentity(cfg.User, cfg.ClientIP, cfg.RemoteAddr)
+		if cfg.Prelude != nil {
+			cfg.Prelude(w, h, gw)
+			vsched.WaitIdle()
+		}
+		preDials := len(w.Net.Dials)
+		preBytes := 0
+		for i := range w.Backends {
+			preBytes += len(w.BackendBytes(i))
+		}
 		var c *TunnelClient
 		if cfg.Kind == "proc" {
 			pr := StartProcessor(gw, id, cfg.RemoteAddr)
@@ -117,7 +131,7 @@ func RunSeq(cfg SeqCfg, segs []Seg) *SeqResult {
 		vsched.WaitIdle()
 		c.Absorb()
 		c.NewPackets()
-		nd, nb := 0, 0
+		nd, nb := preDials, preBytes
 		for _, s := range segs {
 			switch {
 			case s.Action == "close":
